@@ -153,7 +153,7 @@ def templates(include_never=False):
 
 def template_scenario(tid, text, ctx, std):
     """E1 scenario: one template in its minimal legal context."""
-    s_std = "f2008" if std in ("f2008", "f2008x") else "f2003"
+    s_std = std if std in ("f2008", "f2008x") else "f2003"
 
     def scenario(ch):
         stmts = stmts_from_template(text, ch, tid, s_std)
@@ -494,7 +494,10 @@ def u_submodule(spec, ch, name="sm", contains=()):
 
 def u_subroutine(spec, execs, ch, name="s", contains=(), internal=False):
     prefix = ch.pick(["", "recursive ", "pure ", "elemental ", "impure elemental ", "module "], "sprefix")
-    std = "f2008" if prefix in ("impure elemental ", "module ") else "f2003"
+    # MODULE / IMPURE prefixes: F2008, but the f2003 parser accepts them too
+    # (shared Prefix_Spec); C17's list of F2008-only constructs does not
+    # name them, so the model leaves f2003's answer unconstrained ('f2008x')
+    std = {"impure elemental ": "f2008x", "module ": "f2008x"}.get(prefix, "f2003")
     args = ch.pick(["(x, y)", "", "()", "(x, *)"], "sargs")
     suffix = ch.pick(["", " bind(c)", " bind(c, name='cs')"], "ssuffix") if args else ""
     out = [opener("%ssubroutine %s%s%s" % (prefix, name, args, suffix), "subroutine", std=std)]
